@@ -60,13 +60,6 @@ package core
 //@   assert[impl.leftover.cut@C01,C10,C19] at call Buffer.Writev#2 :: forall x int :: x == pos ==> (0 <= sent && sent < len(old(bs[x])) && bs[x] == old(bs[x])[sent:])
 //@   assert[impl.leftover.rest@C01,C10,C19] at call Buffer.Writev#2 :: forall k int :: (0 <= k && k < len(bs) && k != pos) ==> bs[k] == old(bs[k])
 //@   assert at call Buffer.Writev#2 :: forall j int :: (0 <= j && j < len(bs) - pos) ==> bs[pos:][j] == bs[pos + j]
-//@   loop 0
-//@     invariant 0 <= rangeindex + 1 && rangeindex + 1 <= len(bs) && vsum_unfold(bs, rangeindex + 2) && n == vsum(bs, rangeindex + 1)
-//@   loop 1
-//@     modifies nothing
-//@     invariant 0 <= rangeindex + 1 && rangeindex + 1 <= len(bs) && pos == 0 && 0 <= sent && vsum_unfold(bs, rangeindex + 2)
-//@     invariant pre(sent) == sent + vsum(bs, rangeindex + 1) && n == vsum(bs, len(bs)) && pre(sent) < n
-//@     invariant forall k int :: 0 <= k && k < len(bs) ==> bs[k] == old(bs[k])
 //@   modifies c.opened, c.buffer, c.localAddr, c.remoteAddr, c.pollAttachment, c.initStep, c.initStatus, c.isSlave, c.connType
 //@   modifies c.inMsgQueue, c.inFragQueue, c.outFragQueue, c.wcount, c.wlog, elastic.RingBuffer.rb, ring.Buffer.r, ring.Buffer.w, ring.Buffer.isEmpty, elems(bs)
 //@   requires c.loop != nil
@@ -74,6 +67,13 @@ package core
 //@   ensures forall k int :: k < old(c.wcount) ==> c.wlog[k] == old(c.wlog[k])
 //@   ensures c.opened ==> (old(c.opened) && c.inMsgQueue == old(c.inMsgQueue) && c.inFragQueue == old(c.inFragQueue) && c.outFragQueue == old(c.outFragQueue) && err == nil)
 //@   ensures closedfx(c)
+//@   loop 0
+//@     invariant 0 <= rangeindex + 1 && rangeindex + 1 <= len(bs) && vsum_unfold(bs, rangeindex + 2) && n == vsum(bs, rangeindex + 1)
+//@   loop 1
+//@     modifies nothing
+//@     invariant 0 <= rangeindex + 1 && rangeindex + 1 <= len(bs) && pos == 0 && 0 <= sent && vsum_unfold(bs, rangeindex + 2)
+//@     invariant pre(sent) == sent + vsum(bs, rangeindex + 1) && n == vsum(bs, len(bs)) && pre(sent) < n
+//@     invariant forall k int :: 0 <= k && k < len(bs) ==> bs[k] == old(bs[k])
 
 //@ func conn.releaseTCP
 //@   props C15
